@@ -792,7 +792,7 @@ def _delta(te: TermEval, p: Any, name: str) -> Poly:
     return te.ev(p.env[name]) - Poly.atom(name) if name in p.env else Poly()
 
 
-def check_book(run: Run, prog: Program) -> None:
+def check_book(run: Run, prog: Program, facts: list[dict[str, Any]] | None = None) -> None:
     """Bookkeeping of the reservation in _distribute_power (what the remainder handed to the top-up is
     computed from).  A wrong book makes the remainder negative; the top-up then takes power back from
     the first group, which ends below its minimum power, i.e. inside its exclusion zone.
@@ -975,7 +975,13 @@ def check_book(run: Run, prog: Program) -> None:
                 moved = moved + new - old
                 # (e) a donor gives at most what it holds: the entry becomes zero, or changes by an amount
                 #     the path established to be covered by the entry
-                if not new.is_zero() and not _covered_by(known, new - old, old):
+                held = new.is_zero() or _covered_by(known, new - old, old)
+                if facts is not None:
+                    # (for C01's sign clause) one record per store into the reserve table during deficit covering
+                    facts.append({"function": dp, "loop": r.loop, "table": res, "lineno": _e.lineno, "path": p,
+                                  "store": f"{u(tgt)} = {u(val)}", "entry": repr(old), "change": repr(new - old),
+                                  "ok": held, "compared": _compared_with(known, new - old)})
+                if not held:
                     within, bad_w = False, bad_w or p
             if not moved.is_zero():
                 ok, bad = False, bad or p
@@ -1067,6 +1073,23 @@ def _covered_by(known: dict[Any, Any], change: Poly, old: Poly) -> bool:
     return (known.get(("<=", amount, o)) is True or known.get(("<", amount, o)) is True
             or known.get(("<", o, amount)) is False or known.get(("<=", o, amount)) is False
             or known.get(("close", frozenset((o, amount)))) is True)
+
+
+def _compared_with(known: dict[Any, Any], change: Poly) -> list[str]:
+    """What the conditions of the path compare the amount taken (a change of one term ±x) with."""
+    if len(change.terms) != 1:
+        return []
+    (mono, coeff), = change.terms.items()
+    if len(mono) != 1 or mono[0][1] != 1 or coeff not in (1, -1):
+        return []
+    amount = mono[0][0] if coeff == -1 else f"-{mono[0][0]}"
+    out: list[str] = []
+    for key, _o in known.items():
+        if isinstance(key, tuple) and len(key) == 3 and key[0] in ("<", "<=") and amount in key[1:]:
+            out.extend(str(x) for x in key[1:] if x != amount)
+        elif isinstance(key, tuple) and len(key) == 2 and key[0] == "close" and amount in key[1]:
+            out.extend(str(x) for x in key[1] if x != amount)
+    return sorted(set(out))
 
 
 def _nothing_left(p: Any, res: str) -> bool:
@@ -1671,6 +1694,142 @@ def check_adm_order(run: Run, prog: Program) -> None:
               "the same component data", node=fn.node, file=fn.file)
 
 
+class _PowerTo(ast.NodeTransformer):
+    """Replace every occurrence of the request's power (as recognised by `is_power`) by one placeholder name."""
+
+    NAME = "P__request"
+
+    def __init__(self, is_power: Any) -> None:
+        self.is_power = is_power
+
+    def visit(self, node: ast.AST) -> ast.AST:
+        if self.is_power(node):
+            return ast.copy_location(ast.Name(id=self.NAME, ctx=ast.Load()), node)
+        return super().visit(node)
+
+
+def _zero_facts(prog: Program, fn: FuncInfo, p: Any, is_power: Any) -> tuple[list[tuple[float | None, str]], list[tuple[float | None, str]]]:
+    """What the conditions of a path say about the request being zero: (established "zero to tolerance t",
+    established "beyond tolerance t") as (t, text) lists.  A strict sign fact refutes exact zero (t = 0); `not > 0`
+    together with `not < 0` establishes exact zero.  The tolerance of a close-to-zero test is resolved as for
+    C01.L3 (literals, module / imported / class constants, the helper's own default); None: not a constant."""
+    from .c01 import _sign_fact, _zero_test
+
+    sat: list[tuple[float | None, str]] = []
+    ref: list[tuple[float | None, str]] = []
+    signs: dict[str, str] = {}
+    for _k, _ko, atom, _ln, o in p.conds:
+        a = _PowerTo(is_power).visit(copy.deepcopy(atom))
+        if not any(isinstance(n, ast.Name) and n.id == _PowerTo.NAME for n in ast.walk(a)):
+            continue
+        for outcome, dst in ((o, sat), (not o, ref)):
+            t = _zero_test(prog, fn, a, outcome, _PowerTo.NAME)
+            if t is not None:
+                dst.append((t[0], f"{u(atom)} is {'true' if o else 'false'}"))
+        s = _sign_fact(a, o, _PowerTo.NAME)
+        if s is not None:
+            signs[s] = f"{u(atom)} is {'true' if o else 'false'}"
+    for s in ("pos", "neg"):
+        if s in signs:
+            ref.append((0.0, signs[s]))
+    if "nonpos" in signs and "nonneg" in signs:
+        sat.append((0.0, f"{signs['nonpos']} and {signs['nonneg']}"))
+    return sat, ref
+
+
+def check_adm_zero(run: Run, prog: Program) -> None:
+    """C02.ADM (zero agreement).  The admission check lets a request that it classifies as *zero* through without
+    comparing it with the exclusion bounds ("zero power requests are always forwarded"): that is safe only because the
+    algorithm answers such a request with all-zero set-points.  The two sites must therefore agree on what "zero" is:
+    every request the admission forwards unchecked (|power| <= t_adm, the widest zero test under which
+    `_check_request` accepts) must be recognised as zero by the dispatcher of the algorithm, i.e. every path of
+    `distribute_power` that does NOT establish "the request is zero" must have refuted a zero test of tolerance
+    >= t_adm.  Otherwise an unchecked request inside the exclusion zone reaches the reservation: every usable group is
+    started at its minimum (exclusion-bound) power, the remainder `power - Σ min_power` is negative and the top-up
+    takes it back from the first group, which ends inside its exclusion zone or is commanded against its inclusion
+    bound."""
+    from ..engine.sympath import follower, sym_paths
+    from ._admission import check_request_fn
+    from ._c15_util import typed_param
+
+    adm = check_request_fn(prog)
+    run.analysed(adm.qual)
+    req = typed_param(adm, "Request", "request")
+    if req is None:
+        raise AnalysisError(f"{adm.qual}: no `Request` parameter")
+
+    def adm_power(n: ast.AST) -> bool:
+        # `<request>.power.as_watts()`: the requested power in watts (the unit the algorithm is called with, C01.B)
+        return isinstance(n, ast.Call) and not n.args and not n.keywords and isinstance(n.func, ast.Attribute) \
+            and n.func.attr == "as_watts" and isinstance(n.func.value, ast.Attribute) and n.func.value.attr == "power" \
+            and isinstance(n.func.value.value, ast.Name) and n.func.value.value.id == req
+
+    t_adm: float | None = None
+    adm_text = ""
+    adm_path: Any = None
+    for p in sym_paths(adm.node, follow=follower(prog, adm)):
+        accepted = p.exit == "fall" or (p.exit == "return" and (
+            p.ret is None or (isinstance(p.ret, ast.Constant) and p.ret.value is None)))
+        if not accepted:
+            continue
+        sat, _ref = _zero_facts(prog, adm, p, adm_power)
+        if not sat:
+            continue
+        if any(t is None for t, _x in sat):
+            raise AnalysisError(f"{adm.qual}: the tolerance of the zero-request test `{sat[0][1]}` is not a compile-time "
+                                "constant: which requests are forwarded unchecked cannot be decided")
+        t, text = min(sat, key=lambda x: x[0])      # several tests on one path: the tightest decides
+        if t_adm is None or t > t_adm:              # several accepting paths: the widest decides
+            t_adm, adm_text, adm_path = t, text, p
+    dp = prep(prog, f"{BDA}.distribute_power")
+    run.analysed(dp.qual)
+    params = _own_params(dp)
+    if not params:
+        raise AnalysisError(f"{dp.qual}: no request parameter")
+    power = params[0]
+    if t_adm is None:
+        run.ok("C02.ADM", f"{adm.qual}: no request is accepted on the strength of a zero test (nothing is forwarded unchecked)")
+        return
+
+    def alg_power(n: ast.AST) -> bool:
+        return isinstance(n, ast.Name) and n.id == power and isinstance(n.ctx, ast.Load)
+
+    n = 0
+    bad: list[tuple[Any, float | None, str]] = []
+    for p, _st in regions(dp.node)[0].paths:
+        if p.exit != "return":
+            continue
+        sat, ref = _zero_facts(prog, dp, p, alg_power)
+        if sat:
+            continue        # the request is established zero here: what this path answers is C01.L3's matter
+        n += 1
+        known = [(t, x) for t, x in ref if t is not None]
+        if ref and not known:
+            raise AnalysisError(f"{dp.qual}: the tolerance of the zero-request test `{ref[0][1]}` is not a compile-time constant")
+        best = max(known, key=lambda x: x[0]) if known else (None, "no test of the request against zero")
+        if best[0] is None or best[0] < t_adm:
+            bad.append((p, best[0], best[1]))
+    if n < 1:
+        raise AnalysisError(f"{dp.qual}: no path that treats the request as non-zero")
+    p0, got, why = bad[0] if bad else (None, None, "")
+    run.check(not bad, "C02.ADM", dp.qual,
+              f"a request is allocated only after `not zero to {t_adm} W` was established ({why or 'every path'})",
+              f"{adm.qual.split(':')[-1]} forwards every request with |power| <= {t_adm} W without comparing it with the "
+              f"exclusion bounds (`{adm_text}`: zero requests are always forwarded), relying on the algorithm to answer "
+              f"such a request with all-zero set-points; but {dp.name} hands a request on to the allocation on a path that "
+              f"has only established `{why}`, i.e. that the request is not zero to "
+              f"{got if got is not None else 'any'} W: a request of a magnitude in between (float noise of target "
+              "arithmetic upstream, e.g. (0.3 - 0.1 - 0.2) kW = -2.8e-14 W) is admitted unchecked AND allocated -- every "
+              "usable group is started at its minimum (exclusion-bound) power and the negative remainder is taken back "
+              "from the first group, which ends inside its exclusion zone or beyond the inclusion bound of a charge-only / "
+              "discharge-only battery.  Excluded alike: a dispatch on the bare sign (`> 0` / `< 0`), an exact `== 0` test, a "
+              "tighter tolerance in the algorithm, a wider tolerance (argument, named constant, `abs(p) < eps`) in the "
+              "admission check",
+              node=at(p0.conds[-1][3] if p0 is not None and p0.conds else dp.node.lineno), file=dp.file,
+              path=(["admission:"] + adm_path.describe() + ["algorithm:"] + p0.describe()) if p0 is not None else None,
+              instance=f"{dp.qual}: what the admission forwards unchecked as zero (|p| <= {t_adm} W) is answered as zero")
+
+
 def check_pure(run: Run, prog: Program) -> None:
     """The distribution algorithm keeps no state between calls (bounds are never memoised)."""
     cls = prog.cls(BDA)
@@ -1795,6 +1954,13 @@ CONTROLS = [
      "microgrid._power_distributing._component_managers._battery_manager",
      "            if bounds.exclusion_lower < power < bounds.exclusion_upper:",
      "            if abs(power) < bounds.exclusion_upper:", "C02.ADM"),
+    ("algorithm dispatches on the bare sign (only an exact 0.0 is answered as zero)", MOD,
+     "        if is_close_to_zero(power):\n            return DistributionResult(",
+     "        if power == 0.0:\n            return DistributionResult(", "C02.ADM"),
+    ("admission forwards sub-milliwatt requests unchecked as zero",
+     "microgrid._power_distributing._component_managers._battery_manager",
+     "        if is_close_to_zero(power):\n            return None\n",
+     "        if is_close_to_zero(power, abs_tol=1e-3):\n            return None\n", "C02.ADM"),
     ("split arm stores no set-point", MOD,
      "                        new_distribution[inverter_id] = new_power\n", "                        pass\n", "C02.INV"),
 ]
@@ -1832,6 +1998,7 @@ def _run_rest(run: Run, prog: Program) -> None:
     check_adm(run, prog)
     check_adm_min(run, prog)
     check_adm_order(run, prog)
+    check_adm_zero(run, prog)
     check_pure(run, prog)
     _guarded(check_group_total, run, prog)
 
@@ -1842,7 +2009,7 @@ def _rules_for(rule_id: str):
         "C02.CAP": (check_cap,), "C02.INV": (check_inv,), "C02.AVAIL": (check_cap, check_avail, check_exits),
         "C02.BOOK": (check_book,), "C02.RES": (check_book,), "C02.SOCAGG": (check_soc_agg,),
         "C02.TAB": (check_tab,), "C02.SIGN": (check_sign,), "C02.GRP": (check_group_bounds,),
-        "C02.ADM": (check_adm, check_adm_min, check_adm_order), "C02.PURE": (check_pure,),
+        "C02.ADM": (check_adm, check_adm_min, check_adm_order, check_adm_zero), "C02.PURE": (check_pure,),
         "C02.GRPX": (check_group_total,),
     }
     fns = table.get(rule_id)
@@ -1863,7 +2030,8 @@ def check(run: Run, prog: Program, tier: str) -> str:
     run.rule("C02.AVAIL", "SoC headroom is clamped at zero per direction and every non-zero "
              "allocation is control-dependent on that set's own availability ratio")
     run.rule("C02.ADM", "the admission check dominates the distribution, its error is returned, and (order "
-             "domain) whatever it admits is outside the exclusion zone / inside the inclusion bounds")
+             "domain) whatever it admits is outside the exclusion zone / inside the inclusion bounds; what it forwards "
+             "unchecked as a zero request is answered as zero by the algorithm (same or wider zero tolerance)")
     run.rule("C02.PURE", "the distribution algorithm writes no instance state outside __init__")
     run.rule("C02.BOOK", "per path of the reservation loops the distributed-power ledger changes by what the "
              "cells receive, and deficit covering moves reserve from the donor's entry to the deficit")
